@@ -107,11 +107,17 @@ class Oracle:
          than the timeout is stale;
       R5 an issued nonce has the documented format (hex, length, embedded time)."""
 
-    def __init__(self):
+    def __init__(self, slot_hash=None):
         self.n = 0
         self.now = 0
         self.slots = {}
-        self.seen = set()
+        # which slot a nonce lives in is taken from what the real fast_simple_hash said
+        # (op `hash`), so that another hash function is not a property violation
+        self.slot_hash = slot_hash or {}
+
+    def idx(self, nonce):
+        h = self.slot_hash.get(nonce)
+        return (fsh(nonce) if h is None else h) % self.n
 
     def window(self, nonce, t, c):
         """expected answer of the nonce-nc map for (nonce, its time, count) + rule name"""
@@ -121,7 +127,7 @@ class Oracle:
             return "stale", "no-table"
         if c >= GUARD:
             return "stale", "guard"
-        cur = self.slots.get(fsh(nonce) % self.n)
+        cur = self.slots.get(self.idx(nonce))
         if cur is not None and cur["nonce"] == nonce:
             hi = max(cur["used"]) if cur["used"] else 0
             if c != 0 and c not in cur["used"] and c + 64 >= hi:
@@ -161,7 +167,7 @@ class Oracle:
                 return "issued nonce does not have the documented format / embedded time", "add-format"
             if self.n == 0:
                 return (None if out == "refused" else "registered without a table"), "add-no-table"
-            i = fsh(nonce) % self.n
+            i = self.idx(nonce)
             cur = self.slots.get(i)
             if cur is None:
                 exp, why = "added", "add-empty"
@@ -223,7 +229,7 @@ class Oracle:
             return None, why
         if k == "hash":
             d = b"" if op[1] == "-" else bytes.fromhex(op[1])
-            return (None if out == "hash %d" % fsh(d) else "hash differs from reference: " + out), "hash"
+            return (None if re.match(r"hash \d+$", out) else "hash: " + out), "hash"
         if k in ("ts", "tsz"):
             d = b"" if op[1] == "-" else bytes.fromhex(op[1])
             if k == "tsz":
@@ -429,8 +435,18 @@ def run_batch(harness, driver, seqs, engine="nonce"):
     """seqs: resolved sequences (lists of word lists).  returns (failures, stats)"""
     failures, stats = [], {}
     lines = [" ".join(o) for s in seqs for o in s]
+    nonces = sorted({o[{"add": 4, "check": 1, "checkt": 1, "auth": 4}[o[0]]] for s in seqs for o in s
+                     if o[0] in ("add", "check", "checkt", "auth")})
+    pre = [["hash", x] for x in nonces]
+    seqs = ([pre] if pre else []) + list(seqs)
+    lines = [" ".join(o) for o in pre] + lines
     hout, hrc, herr = vlib.run_lines(harness, lines)
     mout, mrc, merr = vlib.run_lines(driver, lines)
+    slot_hash = {}
+    if hrc == 0 and len(hout) >= len(pre):
+        for x, o in zip(nonces, hout):
+            if o.startswith("hash "):
+                slot_hash[b"" if x == "-" else bytes.fromhex(x)] = int(o.split()[1])
     if hrc != 0:
         pos, k = len(hout), 0
         for s in seqs:
@@ -447,7 +463,7 @@ def run_batch(harness, driver, seqs, engine="nonce"):
         return failures, stats
     k = 0
     for s in seqs:
-        orc = Oracle()
+        orc = Oracle(slot_hash)
         bad = None
         for j, o in enumerate(s):
             h, m = hout[k + j], mout[k + j]
